@@ -17,7 +17,7 @@ ASSUMPTIONS = [
     'seeder replaced by a fixed seed (hook H1)',
 ]
 EVAL = ['faults']
-DISTINCT = ['config', 'inject_shape']
+DISTINCT = ['config', 'inject_shape', 'impl_sets']
 REQUIRED = ['faults', 'canary_runs', 'faults_bitflip', 'faults_edit', 'faults_truncate', 'faults_splice', 'faults_inject', 'forged_long_records',
             'forged_conformant', 'forged_bad', 'faults_rejected_with_error', 'conformant_accepted']
 EXHAUSTIVE = 'every bit of every record of each short session; every record index for each edit operation'
